@@ -262,3 +262,69 @@ def stmt_calls(st: ast.AST) -> list[ast.Call]:
 
 def call_name(c: ast.Call) -> str:
     return norm_stmt(c.func)
+
+
+# ----------------------------------------------------------------------------------------------------------------- path sets
+def stmt_paths(stmts: list[ast.stmt], limit: int = 4000) -> set[tuple]:
+    """All paths through a loop-free statement list as tuples of
+        ("cond", text, truth) | ("do", text) | ("exit", kind, text)
+    with kind in return / raise / continue / break / end.  `not` is folded into the truth value, constant tests are
+    decided, nested loops/try/with raise AnalysisError (callers use this on straight-line decision code only).
+    Two functions with equal path sets take the same decisions and perform the same effects in the same order — the
+    comparison is blind to if/else nesting, early returns and `elif` vs separate `if`s."""
+    from .common import AnalysisError, norm_stmt
+    out: set[tuple] = set()
+
+    def lit(test, truth):
+        while isinstance(test, ast.UnaryOp) and isinstance(test.op, ast.Not):
+            test, truth = test.operand, not truth
+        return test, truth
+
+    def run(seq, acc):
+        if len(out) > limit:
+            raise AnalysisError("too many paths")
+        for i, st in enumerate(seq):
+            if isinstance(st, ast.Expr) and isinstance(st.value, ast.Constant):
+                continue
+            if isinstance(st, ast.Pass):
+                continue
+            if isinstance(st, ast.If):
+                test, truth = lit(st.test, True)
+                rest = seq[i + 1:]
+                if isinstance(test, ast.Constant):
+                    run((st.body if bool(test.value) == truth else st.orelse) + rest, acc)
+                    return
+                run(st.body + rest, acc + [("cond", norm_stmt(test), truth)])
+                run(st.orelse + rest, acc + [("cond", norm_stmt(test), not truth)])
+                return
+            if isinstance(st, ast.Return):
+                out.add(tuple(acc + [("exit", "return", norm_stmt(st.value) if st.value is not None else "None")]))
+                return
+            if isinstance(st, ast.Raise):
+                out.add(tuple(acc + [("exit", "raise", norm_stmt(st.exc) if st.exc is not None else "")]))
+                return
+            if isinstance(st, ast.Continue):
+                out.add(tuple(acc + [("exit", "continue", "")]))
+                return
+            if isinstance(st, ast.Break):
+                out.add(tuple(acc + [("exit", "break", "")]))
+                return
+            if isinstance(st, (ast.For, ast.AsyncFor, ast.While, ast.Try, ast.With, ast.AsyncWith, ast.Match)):
+                raise AnalysisError(f"stmt_paths: compound statement {type(st).__name__} at line {st.lineno}")
+            acc = acc + [("do", norm_stmt(st))]
+        out.add(tuple(acc + [("exit", "end", "")]))
+
+    run(list(stmts), [])
+    return out
+
+
+def path_conds(p: tuple) -> dict[str, bool]:
+    return {x[1]: x[2] for x in p if x[0] == "cond"}
+
+
+def path_effects(p: tuple) -> list[str]:
+    return [x[1] for x in p if x[0] == "do"]
+
+
+def path_exit(p: tuple) -> tuple[str, str]:
+    return p[-1][1], p[-1][2]
